@@ -367,24 +367,29 @@ class Interp:
     def check(self, cond, clause, msg=''):
         """property obligation: `cond` must hold for every value on this path.
         If the solver finds values falsifying it, a violation is recorded; the path continues under `cond`."""
-        self.stats.obligations += 1
+        rep = self.replaying()
+        if not rep:
+            self.stats.obligations += 1
         if isinstance(cond, bool) or not is_sym(cond):
             if cond:
-                self.stats.discharged += 1
+                if not rep:
+                    self.stats.discharged += 1
                 return True
-            if not self.replaying():
+            if not rep:
                 self._violate(clause, msg)
             raise Infeasible()
         if self.quick.tri(cond) is True:
-            self.stats.discharged += 1
-            self.stats.discharged_quick += 1
+            if not rep:
+                self.stats.discharged += 1
+                self.stats.discharged_quick += 1
             return True
         cond = z3.simplify(cond)
         if z3.is_true(cond):
-            self.stats.discharged += 1
-            self.stats.discharged_quick += 1
+            if not rep:
+                self.stats.discharged += 1
+                self.stats.discharged_quick += 1
             return True
-        if self.replaying():
+        if rep:
             self.solver.add(cond)
             self.model_valid = False
             return True
